@@ -352,7 +352,7 @@ pub fn gen_table_plan(rng: &mut Prng, property: &str, thorough: bool) -> TablePl
         let mut next = rng.below(3);
         for _ in 0..names.len() {
             ids.push(next);
-            next += rng.range(1, 4);
+            next += *rng.pick(&[1usize, 1, 2, 3, 3, 1000, 1 << 33, 1 << 45]);
         }
         rng.shuffle(&mut ids);
         Some(names.into_iter().zip(ids).collect())
